@@ -94,7 +94,10 @@ PkgStart ==
 Call ==
   /\ IsEvent("Call")
   /\ cur' = [name |-> Ev.name, key |-> Ev.key, file |-> Ev.file, undef |-> Ev.undef]
-  /\ Fail(Checks({ <<"Call: registration frames still open", stack = <<>> >> }))
+  /\ Fail(Checks({
+       <<"Call: registration frames still open", stack = <<>> >>,
+       <<"Call: a call whose argument type is not (yet) valid was registered instead of deferred (C09)",
+           (\E i \in DOMAIN Ev.key : ContainsStr(Ev.key[i], "invalid type") \/ Ev.key[i] = "<nil>") => Ev.undef>> }))
   /\ UNCHANGED <<run, tabs, reserved, plugins, flags, stack, genf, lastAdd, files, pass, imports>>
 
 Dispatch ==
